@@ -250,6 +250,12 @@ def run_kani(ctx, h, extra_cfg=(), logdir=None):
     flags = GUARD + ''.join(' --cfg ' + c for c in extra_cfg)
     cmd = ['cargo', 'kani', '-Z', 'stubbing', '-Z', 'concrete-playback', '--concrete-playback=print',
            '--harness', name, '--exact', '--target-dir', os.path.join(SCRATCH, 'kt%d' % slot)]
+    if h.get('reach') == '0':
+        # Kani's assertion-reachability checks are extra satisfiable SAT queries on the
+        # full formula (a third of the run time for the buffer-editing harnesses);
+        # the runner never used their UNREACHABLE verdicts - vacuity is guarded by the
+        # harness's own kani::cover! witnesses, which stay on
+        cmd.insert(2, '--no-assertion-reach-checks')
     env = dict(os.environ, CARGO_NET_OFFLINE='true', RUSTFLAGS=flags)
     res = dict(harness=name, kind=h['kind'], bound=h.get('bound', ''), encodes=h.get('encodes', ''),
                stretch=(h.get('tier') == 'thorough' and h.get('must') != '1'), expect=h.get('expect', 'WITNESS'))
